@@ -161,7 +161,10 @@ func (f *fragger) imp(i *d2ast.Import) map[string]any {
 		f.fail("import-path")
 		return nil
 	}
-	if _, ok := i.Path[0].Unbox().(*d2ast.UnquotedString); !ok {
+	switch i.Path[0].Unbox().(type) {
+	case *d2ast.UnquotedString, *d2ast.DoubleQuotedString:
+		// RawString re-quotes the head from its value alone
+	default:
 		f.fail("import-path")
 		return nil
 	}
